@@ -109,9 +109,67 @@ fn format_of(case: &Case) -> Format {
     }
 }
 
-/// The library reference: per input, FsContext::for_path + push_path +
-/// with_format + transform, run with the scratch directory as cwd.
+/// The documented search of the file loader, written down once more in the harness: the url joined
+/// to each directory in order (the input's directory, then the load path), first regular file wins.
+/// The reference must not share the component under test: the tool and `FsContext` both contain
+/// rsass' `FsLoader`, so agreement between those two says nothing about either (§12, lesson 3).
+#[derive(Debug)]
+struct RefLoader {
+    dirs: Vec<PathBuf>,
+}
+
+impl rsass::input::Loader for RefLoader {
+    type File = fs::File;
+    fn find_file(&self, url: &str) -> Result<Option<fs::File>, rsass::input::LoadError> {
+        if url.is_empty() {
+            return Ok(None);
+        }
+        for d in &self.dirs {
+            let full = d.join(url);
+            if full.is_file() {
+                return fs::File::open(&full).map(Some).map_err(|e| rsass::input::LoadError::Input(full.display().to_string(), e));
+            }
+        }
+        Ok(None)
+    }
+}
+
+/// The library reference: per input, the root read from the file, rsass' `Context` over the
+/// reference loader (input's directory, then the load path), with_format + transform, run with the
+/// scratch directory as cwd.  It is ALSO computed through rsass' own
+/// `FsContext::for_path` + `push_path`; the two must agree (probe / violation `fscontext_differs`).
 fn library_reference(case: &Case, dir: &Path) -> Vec<Result<Vec<u8>, String>> {
+    use rsass::input::{Context, SourceFile, SourceName};
+    let old = std::env::current_dir().ok();
+    std::env::set_current_dir(dir).expect("chdir scratch");
+    let mut out = vec![];
+    for name in &case.inputs {
+        let r = (|| -> Result<Vec<u8>, rsass::Error> {
+            let path = Path::new(name);
+            let mut f = fs::File::open(path).map_err(|e| rsass::input::LoadError::Input(path.display().to_string(), e))?;
+            let base = path.parent().map(Path::to_path_buf).unwrap_or_default();
+            let fname = path.file_name().map(|n| n.to_string_lossy().into_owned()).unwrap_or_default();
+            let src = SourceFile::read(&mut f, SourceName::root(fname))?;
+            let mut dirs = vec![base];
+            if let Some(lp) = &case.load_path {
+                dirs.push(PathBuf::from(lp));
+            }
+            Context::for_loader(RefLoader { dirs }).with_format(format_of(case)).transform(src)
+        })();
+        let failed = r.is_err();
+        out.push(r.map_err(|e| e.to_string()));
+        if failed {
+            break;
+        }
+    }
+    if let Some(o) = old {
+        let _ = std::env::set_current_dir(o);
+    }
+    out
+}
+
+/// The same through rsass' own `FsContext` (shares `FsLoader` with the tool).
+fn fscontext_reference(case: &Case, dir: &Path) -> Vec<Result<Vec<u8>, String>> {
     let old = std::env::current_dir().ok();
     std::env::set_current_dir(dir).expect("chdir scratch");
     let mut out = vec![];
@@ -326,6 +384,15 @@ fn run_cli(case: &Case, dir: &Path) -> CliOut {
 pub fn judge(case: &Case, tag: &str, stats: &mut Stats) -> (Vec<(String, String, String)>, Json) {
     let scratch = materialise(case, tag);
     let reference = library_reference(case, &scratch.0);
+    // rsass' own FsContext must agree with the documented search (same bytes, same success/failure)
+    let own = fscontext_reference(case, &scratch.0);
+    let same = reference.len() == own.len()
+        && reference.iter().zip(&own).all(|(a, b)| match (a, b) {
+            (Ok(x), Ok(y)) => x == y,
+            (Err(_), Err(_)) => true,
+            _ => false,
+        });
+    let fscontext_differs = !same;
     let all_ok = reference.len() == case.inputs.len() && reference.iter().all(Result::is_ok);
     let mut expected: Vec<u8> = vec![];
     for r in &reference {
@@ -362,6 +429,16 @@ pub fn judge(case: &Case, tag: &str, stats: &mut Stats) -> (Vec<(String, String,
         "reference": reference.iter().map(|r| match r { Ok(b) => format!("Ok({} bytes)", b.len()), Err(e) => format!("Err({})", e.lines().next().unwrap_or("")) }).collect::<Vec<_>>(),
     });
     let mut fail = |o: &str, d: String| fails.push((o.to_string(), sig.clone(), d));
+    if fscontext_differs {
+        fail(
+            "wrong_resolution_order",
+            format!(
+                "FsContext::for_path + push_path does not give what the documented search gives (input's directory, then --load-path): {:?} vs {:?}",
+                own.iter().map(|r| match r { Ok(b) => format!("Ok({} bytes)", b.len()), Err(e) => format!("Err({})", e.lines().next().unwrap_or("")) }).collect::<Vec<_>>(),
+                reference.iter().map(|r| match r { Ok(b) => format!("Ok({} bytes)", b.len()), Err(e) => format!("Err({})", e.lines().next().unwrap_or("")) }).collect::<Vec<_>>()
+            ),
+        );
+    }
     if out.timed_out {
         fail("cli_hang", "the rsass process did not exit within 60 s".into());
         return (fails, observed);
